@@ -71,6 +71,11 @@ CHECKS = {
             "TLC shows that a generator following the rules satisfies every clause on all type graphs of 3 types x 4 reference fields (satisfiability), then judges the per-application diagram of every application of TLC-generated programs (tuples, tables, enums, primitive and collection aliases, unions; primitive, optional, set/sequence-wrapped, local, self, repeated and cross-application references; namespaced applications): exactly one class per covered type, every field listed, one relationship line per referring field to a drawn type, no line to an alias that no class declares unless the target lives in another application.",
             "Project-manner generation with one application per view; multiplicity labels and field type texts not compared; field references (T.f) from tuples are neither required nor forbidden.",
             "DESIGN.md §6 C15"),
+    "C17": ("model_checking",
+            "TLA+ spec Relmod.tla (census relation: rows = census of the compiled model per relation, statement position paths distinct, same rows twice) evaluated by TLC on every schema the real relmod.Normalize returns for TLC-generated programs (RelmodTrace.tla)",
+            "The specification states what 'lossless image' means as set equations over rows; TLC evaluates them on the rows of every recorded schema against a census the harness takes from the compiled module independently of relmod (applications, mixins, endpoints, events, REST data, statements with 0-based position paths incl. one row per alt choice, types, table keys, fields, enum items, aliases, tags, string annotations, status and type of simple return payloads). Inputs are TLC-generated programs over all declaration kinds plus call-graph programs nested up to 6 blocks deep; Normalize runs twice per model in a guarded worker (an error is an admissible refusal, a crash is not).",
+            "The state-space numbers in the evidence are those of the trace-validation runs (there is no separate design-level model check: the relation is stateless). Parameters, views, array annotations and source-context relations are not compared.",
+            "DESIGN.md §6 C17"),
 }
 
 PENDING = {}
